@@ -50,12 +50,30 @@ def one_repo(args):
     try:
         roles, files = repogen.build(rng, root, portable=False)
         profile = o.get('profile') or rng.choice(['ebuild', 'old-ebuild', 'ebuild', 'old-ebuild', 'default'])
+        # the watermark counts BYTES of the uncompressed Manifest: a directory whose Manifest has fewer than 128
+        # characters but at least 128 bytes (one file with a long non-ASCII name, short digests)
+        wmwin = None
+        if profile != 'default' and rng.random() < 0.15:
+            for dname, role in (('eclass', 'eclass'), ('licenses', 'licenses')):
+                if dname not in roles:
+                    os.makedirs(os.path.join(root, dname), exist_ok=True)
+                    roles[dname] = role
+                    fname = dname + '/' + '\u30e9\u30a4\u30bb\u30f3\u30b9' * 2 + '\u30e9\u30a4' + rng.choice(['', 'x', 'xy'])
+                    with open(os.path.join(root, fname), 'wb') as f:
+                        f.write(b'multi-byte name')
+                    files[fname] = b'multi-byte name'
+                    wmwin = fname
+                    break
         argv = ['create', '-p', profile]
         hashes = ['BLAKE2B', 'SHA512']
         sort = profile != 'default'
         wm = 128 if profile != 'default' else -1
         ov = rng.random()
-        if profile == 'default' or ov < 0.25:
+        if wmwin:
+            hashes = ['MD5', 'SHA1']
+            argv += ['--hashes', 'MD5 SHA1']
+            ov = 0.9
+        elif profile == 'default' or ov < 0.25:
             hashes = rng.choice([['SHA256'], ['MD5', 'SHA1'], ['SHA3_256']])
             argv += ['--hashes', ' '.join(hashes)]
         if 0.2 < ov < 0.45:
